@@ -1,5 +1,5 @@
-(* Proofs about validate_flags, the URI builders, ParseProbeType,
-   probe_interval and generate_payload; finding B3. *)
+(* Proofs about validate_flags (after fix 30d7568), the URI builders,
+   ParseProbeType, probe_interval and generate_payload. *)
 From Coq Require Import ZArith NArith Reals Lia Lra Bool List.
 From Flocq Require Import Core.Core IEEE754.BinarySingleNaN.
 From GV Require Import Prober.F64 Prober.F64Facts Prober.Model Prober.Monitors.
@@ -114,7 +114,7 @@ Proof. intros [|] e l H; simpl in H; [discriminate | auto]. Qed.
 
 Lemma accepted_inv :
   forall f, flags_accepted f = true ->
-  (f64_le (fl_qps f) f64_zero || f64_gt (fl_qps f) f64_1000) = false /\
+  (f64_ge (fl_qps f) f64_min_qps && f64_le (fl_qps f) f64_1000) = true /\
   0 < fl_num_rows f /\ 0 < fl_payload_size f /\
   re_project (fl_project f) = true /\ re_project (fl_ops_project f) = true /\
   re_instdb (fl_instance f) = true /\ re_instdb (fl_database f) = true /\
@@ -134,7 +134,7 @@ Proof.
   apply err_if_app_nil in V. destruct V as [V8 V].
   rewrite <- (app_nil_r (err_if _ FEprobeType)) in V.
   apply err_if_app_nil in V. destruct V as [V9 _].
-  apply Z.leb_gt in V2, V3. apply negb_false_iff in V4, V5, V6, V7, V8.
+  apply Z.leb_gt in V2, V3. apply negb_false_iff in V1, V4, V5, V6, V7, V8.
   repeat split; try assumption.
   destruct (parse_probe_type (fl_probe_type f)) as [p|]; [now exists p | discriminate].
 Qed.
@@ -205,7 +205,8 @@ Lemma consts_are_conversions :
   BinarySingleNaN.B2SF f64_1000 = BinarySingleNaN.B2SF (f64_of_int 1000) /\
   BinarySingleNaN.B2SF f64_second = BinarySingleNaN.B2SF (f64_of_int 1000000000) /\
   BinarySingleNaN.B2SF f64_1_5 =
-    BinarySingleNaN.B2SF (BinarySingleNaN.binary_normalize 53 1024 _ _ mode_NE 3 (-1) false).
+    BinarySingleNaN.B2SF (BinarySingleNaN.binary_normalize 53 1024 _ _ mode_NE 3 (-1) false) /\
+  BinarySingleNaN.B2SF f64_min_qps = BinarySingleNaN.B2SF (f64_of_bits f64_min_qps_bits).
 Proof. vm_compute. repeat split; reflexivity. Qed.
 
 (* 2^63 - 1024, the largest binary64 below 2^63 *)
@@ -283,47 +284,50 @@ Qed.
 Corollary interval_positive_cor : forall q, interval_guard q = true -> 0 < probe_interval q.
 Proof. intros q G. pose proof (interval_positive_thm q G). lia. Qed.
 
-(* accepted by validate_flags and not matching B3's trigger = inside the guard *)
-Theorem accepted_guard_or_B3 :
-  forall f, flags_accepted f = true -> k_B3 (fl_qps f) = false -> interval_guard (fl_qps f) = true.
+Lemma min_qps_val :
+  fin f64_min_qps = true /\
+  b2r f64_min_qps = (4835703278458517 * / 4835703278458516698824704)%R.
+Proof. split; [reflexivity |]. unfold f64_min_qps, BinarySingleNaN.B2R, F2R. simpl. reflexivity. Qed.
+
+(* every qps that validate_flags lets through is inside the exact guard *)
+Theorem accepted_interval_guard :
+  forall f, flags_accepted f = true -> interval_guard (fl_qps f) = true.
 Proof.
-  intros f H K. destruct (accepted_inv f H) as (Q & _). clear H.
-  apply orb_false_iff in Q. destruct Q as [Q1 Q2].
-  unfold k_B3 in K. apply orb_false_iff in K. destruct K as [K1 K2].
+  intros f H. destruct (accepted_inv f H) as (Q & _). clear H.
+  apply andb_true_iff in Q. destruct Q as [Q1 Q2].
   destruct qps_min_val as [Fm Vm]. destruct thousand_val as [Ft Vt].
+  destruct min_qps_val as [Fn Vn].
   set (q := fl_qps f) in *.
-  assert (Fz : fin f64_zero = true) by reflexivity.
-  assert (Vz : b2r f64_zero = 0%R) by reflexivity.
+  assert (Fq : fin q = true).
+  { destruct q as [s | s | | s m e B]; try reflexivity.
+    - destruct s.
+      + exfalso. revert Q1. unfold f64_ge. vm_compute. discriminate.
+      + exfalso. revert Q2. unfold f64_le. vm_compute. discriminate.
+    - exfalso. revert Q1. unfold f64_ge. vm_compute. discriminate. }
   unfold interval_guard.
-  destruct q as [s | s | | s m e B] eqn:Eq.
-  - (* zero: rejected *) exfalso. revert Q1. unfold f64_le. destruct s; vm_compute; discriminate.
-  - (* infinity: rejected *) exfalso. destruct s.
-    + revert Q1. unfold f64_le. vm_compute. discriminate.
-    + revert Q2. unfold f64_gt. vm_compute. discriminate.
-  - (* nan: B3 *) discriminate.
-  - rewrite <- Eq in *. assert (Fq : fin q = true) by (rewrite Eq; reflexivity).
-    rewrite (f64_le_spec _ _ Fq Fz) in Q1. rewrite (f64_gt_spec _ _ Fq Ft) in Q2.
-    rewrite (f64_lt_spec _ _ Fz Fq), (f64_lt_spec _ _ Fq Fm) in K2.
-    rewrite (f64_le_spec _ _ Fm Fq), (f64_le_spec _ _ Fq Ft).
-    rewrite Vz, Vt in *.
-    destruct (Rle_bool_spec (b2r q) 0); [discriminate |].
-    destruct (Rlt_bool_spec 1000 (b2r q)); [discriminate |].
-    destruct (Rlt_bool_spec 0 (b2r q)); [| lra].
-    destruct (Rlt_bool_spec (b2r q) (b2r qps_min)); [discriminate |].
-    destruct (Rle_bool_spec (b2r qps_min) (b2r q)); [| lra].
-    destruct (Rle_bool_spec (b2r q) 1000); [reflexivity | lra].
+  rewrite (f64_ge_spec _ _ Fq Fn) in Q1. rewrite (f64_le_spec _ _ Fq Ft) in Q2.
+  rewrite (f64_le_spec _ _ Fm Fq), (f64_le_spec _ _ Fq Ft).
+  rewrite Vt, Vn in *.
+  destruct (Rle_bool_spec (4835703278458517 * / 4835703278458516698824704) (b2r q)) as [L |]; [| discriminate].
+  destruct (Rle_bool_spec (b2r q) 1000) as [U |]; [| discriminate].
+  rewrite Vm.
+  destruct (Rle_bool_spec (8388608000000001 * / 77371252455336267181195264) (b2r q)); [reflexivity | lra].
 Qed.
 
-(* the flags clause of the monitor holds for the model unless B3's trigger fires *)
+Theorem interval_positive_accepted :
+  forall f, flags_accepted f = true ->
+  1000000 <= probe_interval (fl_qps f) <= below_two63.
+Proof. intros f H. apply interval_positive_thm. now apply accepted_interval_guard. Qed.
+
+(* the flags clause of the monitor holds for the model, for every flag set *)
 Theorem c18_flags_on_model :
   forall f qb, fl_qps f = f64_of_bits qb ->
-  k_B3 (fl_qps f) = false ->
   let errs := validate_flags f in
   let o := FErrs (Z.of_nat (length errs)) (err_mask errs) in
   let gi := ginput_of f qb in
   c18_flags f qb o (if impl_accepted o then Some (gi, model_gobs gi) else None) = true.
 Proof.
-  intros f qb Eq K errs o gi. unfold c18_flags. subst o gi.
+  intros f qb Eq errs o gi. unfold c18_flags. subst o gi.
   destruct (impl_accepted (FErrs (Z.of_nat (length errs)) (err_mask errs))) eqn:A; [| reflexivity].
   assert (Acc : flags_accepted f = true).
   { unfold impl_accepted in A. apply andb_true_iff in A. destruct A as [A _].
@@ -334,27 +338,39 @@ Proof.
   unfold ginput_of. simpl gi_project. simpl gi_instance. simpl gi_database.
   simpl gi_instance_config. simpl gi_qps_bits. simpl gi_probe_type.
   rewrite (flags_uri_monitor_thm f Acc). rewrite <- Eq.
-  pose proof (interval_positive_cor _ (accepted_guard_or_B3 f Acc K)) as P.
-  apply Z.ltb_lt in P. rewrite P.
+  pose proof (interval_positive_accepted f Acc) as P.
+  replace (0 <? probe_interval (fl_qps f)) with true by (symmetry; apply Z.ltb_lt; lia).
   destruct (flags_probe_type_parsable_thm f Acc) as [p ->]. reflexivity.
 Qed.
 
-(* ---- finding B3: accepted flag sets with a non-positive interval ---- *)
+(* ---- the inputs of the former finding B3 (fixed by 30d7568) ---- *)
 Definition b3_flags (qps_bits : Z) : flags :=
   mk_flags [97]%N [] [97]%N [97]%N [97]%N qps_bits 1 1 s_noop.
 
-Theorem interval_positive_refuted :
-  (* qps = NaN *)
-  (flags_accepted (b3_flags 9221120237041090560) = true /\
-   probe_interval (f64_of_bits 9221120237041090560) = min_int64) /\
-  (* qps = 1e-10 *)
-  (flags_accepted (b3_flags 4457293557087583675) = true /\
-   probe_interval (f64_of_bits 4457293557087583675) = min_int64) /\
-  (* the float just below qps_min; qps_min itself gives 2^63 - 1024 *)
-  (flags_accepted (b3_flags (qps_min_bits - 1)) = true /\
-   probe_interval (f64_of_bits (qps_min_bits - 1)) = min_int64 /\
-   probe_interval qps_min = below_two63) /\
-  min_int64 < 0.
+(* what the pre-fix code answered for such a flag set: accepted, interval = MinInt64 *)
+Definition b3_prefix_case (qps_bits : Z) : pcase :=
+  let f := b3_flags qps_bits in
+  let gi := ginput_of f qps_bits in
+  KFlags f qps_bits (FErrs 0 0)
+    (Some (gi, GOut (build_uris (gi_project gi) (gi_instance gi) (gi_database gi) (gi_instance_config gi))
+                    min_int64 (Some s_noop))).
+
+Theorem flags_former_B3_inputs :
+  (* qps = NaN, 1e-10, the float just below the exact guard: now rejected *)
+  validate_flags (b3_flags 9221120237041090560) = [FEqps] /\
+  validate_flags (b3_flags 4457293557087583675) = [FEqps] /\
+  validate_flags (b3_flags (qps_min_bits - 1)) = [FEqps] /\
+  (* probe_interval itself is unchanged *)
+  probe_interval (f64_of_bits 9221120237041090560) = min_int64 /\
+  probe_interval (f64_of_bits (qps_min_bits - 1)) = min_int64 /\
+  probe_interval qps_min = below_two63 /\
+  (* the boundary of the new test: minQPS = 1e-9 is accepted (10^18 ns), the float below is not *)
+  validate_flags (b3_flags f64_min_qps_bits) = [] /\
+  probe_interval (f64_of_bits f64_min_qps_bits) = 1000000000000000000 /\
+  validate_flags (b3_flags (f64_min_qps_bits - 1)) = [FEqps] /\
+  (* the pre-fix outputs are rejected by the monitor *)
+  case_mon (b3_prefix_case 9221120237041090560) = false /\
+  case_mon (b3_prefix_case 4457293557087583675) = false.
 Proof. vm_compute. repeat split; reflexivity. Qed.
 
 (* ------------------------------------------------------------------------ *)
